@@ -133,7 +133,9 @@ func init() {
 	})
 	hashOf := func(f F) common.Hash { return common.BytesToHash(f.B()) }
 	addKey("eth.EthHeaderIndexKey", "bu", func(a []F) ([]byte, []byte, bool) { return plain(ethclient.EthHeaderIndexKey(hashOf(a[0]), a[1].U())) })
-	addKey("eth.EthHeaderIndexPath", "bu", func(a []F) ([]byte, []byte, bool) { return plainS(ethclient.EthHeaderIndexPath(hashOf(a[0]), a[1].U())) })
+	addKey("eth.EthHeaderIndexPath", "bu", func(a []F) ([]byte, []byte, bool) {
+		return plainS(ethclient.EthHeaderIndexPath(hashOf(a[0]), a[1].U()))
+	})
 	addKey("eth.EthRootMainKey", "bu", func(a []F) ([]byte, []byte, bool) { return plain(ethclient.EthRootMainKey(hashOf(a[0]), a[1].U())) })
 	addKey("eth.EthRootMainPath", "bu", func(a []F) ([]byte, []byte, bool) { return plainS(ethclient.EthRootMainPath(hashOf(a[0]), a[1].U())) })
 
